@@ -101,9 +101,12 @@ def check(rep):
                     rep.fail("oracle", f"{t}: masses sum to {tot}", ident, expected=1.0, observed=tot,
                              tags={"schulz_zimm_density_as_pmf"} if fam == "schulz_zimm" else set())
                 # interval rule
-                for _ in range(4):
-                    a_ = int(rnd.uniform(max(1, mean - 2 * spread), mean + spread))
-                    b_ = a_ + rnd.randrange(1, max(2, int(spread) + 2))
+                civ = [(int(rnd.uniform(max(1, mean - 2 * spread), mean + spread)), rnd.randrange(1, max(2, int(spread) + 2))) for _ in range(4)]
+                civ += [(int(mean + k * spread), max(1, int(0.5 * spread))) for k in (2.0, 2.6, 3.2, 4.0)]
+                for a_, w_ in civ:
+                    b_ = a_ + w_
+                    if b_ >= ks[-1]:
+                        continue
                     iv = float(d.prob_mw(interval(a_, b_)))
                     want = float(pm[(ks > a_) & (ks <= b_)].sum())
                     if abs(iv - want) > 1e-6:
@@ -121,13 +124,23 @@ def check(rep):
                     tot = integrate.quad(f, int(args[0]), int(args[1]))[0]
                 if abs(tot - 1) > 2e-3:
                     rep.fail("oracle", f"{t}: density integrates to {tot}", ident, expected=1.0, observed=tot)
-                for _ in range(4):
-                    a_ = rnd.uniform(max(lo, mean - 2 * spread), mean + spread)
-                    b_ = a_ + rnd.uniform(0.1, 1.5) * spread
+                ivs = [(rnd.uniform(max(lo, mean - 2 * spread), mean + spread), rnd.uniform(0.1, 1.5) * spread) for _ in range(4)]
+                ivs += [(mean + k * spread, 0.5 * spread) for k in (2.0, 2.6, 3.2, -2.5, -3.2)]      # both tails
+                if fam == "uniform":
+                    ivs += [(int(args[0]) + q * (int(args[1]) - int(args[0])), 0.004 * (int(args[1]) - int(args[0]))) for q in (0.001, 0.5, 0.991, 0.995)]
+                for a_, w_ in ivs:
+                    b_ = a_ + w_
+                    if fam == "log_normal" and a_ <= 0:
+                        continue
                     iv = float(d.prob_mw(interval(a_, b_)))
                     want = integrate.quad(f, a_, b_)[0]
-                    if abs(iv - want) > 1e-5:
+                    if abs(iv - want) > 1e-5 or iv < -1e-12:
                         rep.fail("oracle", f"{t}: probability of ({a_:.3f}, {b_:.3f}] is {iv}, the density integrates to {want} there", ident, expected=want, observed=iv)
+                # a partition of the support must add up to 1
+                cuts = np.linspace((max(lo, 1e-9) if fam == "log_normal" else lo) if fam != "uniform" else int(args[0]) - 1, hi if fam != "uniform" else int(args[1]) + 1, 41)
+                part = sum(float(d.prob_mw(interval(x, y))) for x, y in zip(cuts, cuts[1:]) if not (fam == "log_normal" and x <= 0))
+                if abs(part - 1) > 2e-3:
+                    rep.fail("oracle", f"{t}: interval probabilities over a partition of the support add up to {part}", ident, expected=1.0, observed=part)
         except Exception as e:  # noqa
             rep.fail("oracle", f"{t}: probability evaluation raised {type(e).__name__}: {str(e)[:80]}", ident, expected="a number", observed=fw.exc_class(e), tags=tags_for(fam, args, region, e))
             continue
